@@ -175,7 +175,7 @@ def one_history(col: Collector, rng, index: int):
             if j is None:
                 return
             jobs.append(j)
-        ds_pool = [DatasetId("t0", "0"), DatasetId("t0", "1"), DatasetId("t1", "0"), DatasetId("a.b", "x")]
+        ds_pool = [DatasetId("t0", "0"), DatasetId("t0", "1"), DatasetId("t1", "0"), DatasetId("a.b", "x"), DatasetId("a", "b.x"), DatasetId("t", "00"), DatasetId("t0", "")]   # incl. pairs whose printed names coincide
         nsteps = rng.randint(5, 60)
         clock = {j: 1000 for j in jobs}
         for _step in range(nsteps):
